@@ -27,6 +27,8 @@ impl Roots {
     pub fn push_func(&mut self, func: FunctionId) -> &mut Roots {
         if self.used.funcs.insert(func) {
             log::trace!("function is used: {:?}", func);
+            #[cfg(walrus_verif)]
+            crate::verif::emit("marked", "funcs", func.index() as i64, -1);
             self.funcs.push(func);
         }
         self
@@ -36,6 +38,8 @@ impl Roots {
     pub fn push_table(&mut self, table: TableId) -> &mut Roots {
         if self.used.tables.insert(table) {
             log::trace!("table is used: {:?}", table);
+            #[cfg(walrus_verif)]
+            crate::verif::emit("marked", "tables", table.index() as i64, -1);
             self.tables.push(table);
         }
         self
@@ -45,6 +49,8 @@ impl Roots {
     pub fn push_memory(&mut self, memory: MemoryId) -> &mut Roots {
         if self.used.memories.insert(memory) {
             log::trace!("memory is used: {:?}", memory);
+            #[cfg(walrus_verif)]
+            crate::verif::emit("marked", "memories", memory.index() as i64, -1);
             self.memories.push(memory);
         }
         self
@@ -54,6 +60,8 @@ impl Roots {
     pub fn push_global(&mut self, global: GlobalId) -> &mut Roots {
         if self.used.globals.insert(global) {
             log::trace!("global is used: {:?}", global);
+            #[cfg(walrus_verif)]
+            crate::verif::emit("marked", "globals", global.index() as i64, -1);
             self.globals.push(global);
         }
         self
@@ -62,6 +70,8 @@ impl Roots {
     fn push_data(&mut self, data: DataId) -> &mut Roots {
         if self.used.data.insert(data) {
             log::trace!("data is used: {:?}", data);
+            #[cfg(walrus_verif)]
+            crate::verif::emit("marked", "data", data.index() as i64, -1);
             self.datas.push(data);
         }
         self
@@ -70,6 +80,8 @@ impl Roots {
     fn push_element(&mut self, element: ElementId) -> &mut Roots {
         if self.used.elements.insert(element) {
             log::trace!("element is used: {:?}", element);
+            #[cfg(walrus_verif)]
+            crate::verif::emit("marked", "elements", element.index() as i64, -1);
             self.elements.push(element);
         }
         self
